@@ -14,16 +14,21 @@ package main
 
 import (
 	"context"
+	"bufio"
+	"encoding/json"
 	"errors"
 	"fmt"
 	"net/http"
 	"net/http/httptest"
 	"net/url"
+	"os"
+	"os/exec"
 	"runtime"
 	"sort"
 	"strconv"
 	"strings"
 	"sync"
+	"sync/atomic"
 	"time"
 
 	"rivaas.dev/app"
@@ -649,6 +654,9 @@ func fixedPhases() []caseT {
 		{Actors: []actorT{reg(1, 0), {K: "H", R: 1}, {K: "N", R: 1}, {K: "U", R: 1}, rq(1, false), rq(1, true), {K: "U", R: 1}, {K: "U", R: 2}}, Plan: []int{0, 0, 1, 2, 3, 4, 4, 4, 4, 4, 4, 4, 4, 5, 6, 7}},
 		// explicit Warmup first, then Where re-registers, then freeze
 		{Actors: []actorT{reg(1, 0), {K: "W"}, {K: "H", R: 1}, rq(1, false), rq(1, true)}, Plan: []int{0, 0, 1, 1, 1, 1, 2, 3, 4}},
+		// the same on a route that lives in a version tree (observation passed on by b-c02-c10: not reproduced —
+		// the constraint is enforced; static version routes never look at constraints, before or after Warmup)
+		{Actors: []actorT{reg(1, 3), {K: "W"}, {K: "H", R: 1}, rq(1, false), rq(1, true)}, Plan: []int{0, 0, 1, 1, 1, 1, 2, 3, 4}},
 		// K12e: a registration passes the flag test, the first request is served, then the registration goes on —
 		// through the router (pending list already drained) and through a version router after an explicit Warmup
 		{Actors: []actorT{reg(1, 0), reg(2, 0), rq(1, true), rq(2, true)}, Plan: []int{0, 0, 1, 2, 2, 2, 2, 2, 2, 2, 2, 1, 3, 3, 3}},
@@ -1182,6 +1190,311 @@ func runApp(id string, viaRequest bool, st *hx.Stats) string {
 	return l.String()
 }
 
+// ---------------------------------------------------------------- unscheduled kinds run in a child process
+
+// stressLine renders one unscheduled observation: the harness judged interleaving-independent facts itself.
+func stressLine(id string, n int, bad []string, recipe any, st *hx.Stats, counter string) string {
+	l := hx.NewLine(id).Tok("S").Nat(n)
+	in := l.String()
+	l.Sep()
+	if len(bad) == 0 {
+		l.Tok("OK")
+	} else {
+		sort.Strings(bad)
+		if len(bad) > 6 {
+			bad = append(bad[:6], fmt.Sprintf("… %d more", len(bad)-6))
+		}
+		l.Tok("BAD").Str(strings.Join(bad, "; "))
+	}
+	if st != nil {
+		st.Case(in[len(id):]+id, false)
+		st.Count(counter)
+	}
+	return l.String() + hx.Comment(map[string]any{"Stress": recipe, "Msg": bad})
+}
+
+type stressRecipe struct {
+	Kind string
+	Seed uint64
+	N    int
+}
+
+// runInflight (seeded change C12-2 class): explicit Warmup(), then a goroutine registers fresh routes until
+// it is rejected while another freezes the router (Freeze() or the first request) as soon as it sees — through
+// the public Routes() — that one more registration has been admitted, and probes the routes in flight right
+// after the freeze. For EVERY interleaving on a correct router: a registration that returned normally is
+// routable from the moment the freeze returned (it was admitted and written into the tree under the mutex
+// under which Freeze stores its flags), a registration that panicked is never routable, and no route answers
+// 404 after the freeze and 200 later. Sound; only the detection power is a matter of chance.
+func runInflight(id string, seed uint64, trials int, st *hx.Stats) string {
+	r := hx.NewRand(seed)
+	var bad []string
+	hit := 0
+	for t := 0; t < trials && len(bad) < 8; t++ {
+		opts := []router.Option{router.WithVersioning(version.WithHeaderDetection("X-API-Version"), version.WithDefault("v1"))}
+		if r.Chance(1, 2) {
+			opts = append(opts, router.WithRouteCompilation(true))
+		}
+		rt := router.MustNew(opts...)
+		nmw := hx.Pick(r, []int{0, 50, 400})
+		for i := 0; i < nmw; i++ { // the tree insertion copies the global middleware: a longer way from "admitted" to "written"
+			rt.Use(func(c *router.Context) { c.Next() })
+		}
+		h := func(c *router.Context) { _ = c.String(http.StatusOK, "ok") }
+		grp := rt.Group("/g")
+		v1 := rt.Version("v1")
+		rt.GET("/r0/:id", h)
+		rt.Warmup()
+		kind := r.Intn(3)
+		path := func(k int) string {
+			if kind == 1 {
+				return "/g/f" + strconv.Itoa(k) + "/12"
+			}
+			return "/f" + strconv.Itoa(k) + "/12"
+		}
+		get := func(p string) int {
+			rec := httptest.NewRecorder()
+			rt.ServeHTTP(rec, httptest.NewRequest(http.MethodGet, p, nil))
+			return rec.Code
+		}
+		const maxK = 48
+		var started atomic.Int64
+		accepted := make([]bool, maxK+2)
+		viaRequest := r.Chance(1, 2)
+		waitFor := r.Range(1, 6)
+		var wg sync.WaitGroup
+		wg.Add(2)
+		go func() {
+			defer wg.Done()
+			for k := 1; k <= maxK; k++ {
+				started.Store(int64(k))
+				pat := "/f" + strconv.Itoa(k) + "/:id"
+				ok := !panics(func() {
+					switch kind {
+					case 0:
+						rt.GET(pat, h)
+					case 1:
+						grp.GET(pat, h)
+					default:
+						v1.GET(pat, h)
+					}
+				})
+				if !ok {
+					return
+				}
+				accepted[k] = true
+			}
+		}()
+		type probeT struct{ k, code int }
+		var probes []probeT
+		go func() {
+			defer wg.Done()
+			for len(rt.Routes()) < 1+waitFor && started.Load() < maxK { // registration number waitFor has been admitted
+			}
+			if viaRequest {
+				get("/r0/12")
+			} else {
+				rt.Freeze()
+			}
+			k := int(started.Load())
+			for _, kk := range []int{k, k - 1, k + 1} {
+				if kk >= 1 && kk <= maxK {
+					probes = append(probes, probeT{kk, get(path(kk))})
+				}
+			}
+		}()
+		wg.Wait()
+		for _, p := range probes {
+			final := get(path(p.k))
+			switch {
+			case accepted[p.k] && p.code != http.StatusOK:
+				bad = append(bad, fmt.Sprintf("trial %d: registration %d returned normally but the route answered %d right after the freeze (now %d)", t, p.k, p.code, final))
+			case p.code != http.StatusOK && final == http.StatusOK:
+				bad = append(bad, fmt.Sprintf("trial %d: route %d answered %d after the freeze and 200 later", t, p.k, p.code))
+			case !accepted[p.k] && final == http.StatusOK:
+				bad = append(bad, fmt.Sprintf("trial %d: registration %d was rejected but the route is routable", t, p.k))
+			}
+			if accepted[p.k] {
+				hit++
+			}
+		}
+		for k := 1; k <= maxK; k++ {
+			if c := get(path(k)); accepted[k] != (c == http.StatusOK) {
+				bad = append(bad, fmt.Sprintf("trial %d: registration %d accepted=%v but the route answers %d", t, k, accepted[k], c))
+				break
+			}
+		}
+	}
+	if st != nil {
+		st.Counters["inflight_probes_of_accepted_routes"] += hit
+	}
+	return stressLine(id, trials, bad, stressRecipe{"inflight", seed, trials}, st, "inflight_batches")
+}
+
+// runRewarm (seeded change C12-4 class): Warmup() is called again and again — before serving from two goroutines
+// racing the first requests, and after serving began — while requests hit static routes, unknown paths and wrong
+// methods (the 404/405 handling reads the compiled tables). Freeze and Warmup are idempotent: every answer
+// is what the table registered before says, and nothing crashes. A Go runtime `fatal error: concurrent map …`
+// cannot be recovered: this kind runs in a child process and the parent reports the crash.
+func runRewarm(id string, seed uint64, trials int, st *hx.Stats) string {
+	r := hx.NewRand(seed)
+	var mu sync.Mutex
+	var bad []string
+	fail := func(f string, a ...any) { mu.Lock(); bad = append(bad, fmt.Sprintf(f, a...)); mu.Unlock() }
+	for t := 0; t < trials && len(bad) < 8; t++ {
+		opts := []router.Option{router.WithVersioning(version.WithHeaderDetection("X-API-Version"), version.WithDefault("v1"))}
+		if r.Chance(1, 2) {
+			opts = append(opts, router.WithRouteCompilation(true))
+		}
+		rt := router.MustNew(opts...)
+		h := func(c *router.Context) { _ = c.String(http.StatusOK, "ok") }
+		v1 := rt.Version("v1")
+		for i := 0; i < 24; i++ {
+			rt.GET("/s"+strconv.Itoa(i), h)
+			rt.POST("/p"+strconv.Itoa(i), h)
+			v1.GET("/v"+strconv.Itoa(i), h)
+		}
+		rt.GET("/r0/:id", h)
+		do := func(m, p string) int {
+			rec := httptest.NewRecorder()
+			rt.ServeHTTP(rec, httptest.NewRequest(m, p, nil))
+			return rec.Code
+		}
+		if r.Chance(1, 2) {
+			rt.Warmup()
+		}
+		if r.Chance(1, 2) {
+			do("GET", "/s0") // serving has begun before the repeated warm-ups
+		}
+		var wg sync.WaitGroup
+		start := make(chan struct{})
+		for g := 0; g < 2; g++ {
+			wg.Add(1)
+			go func() {
+				defer wg.Done()
+				<-start
+				for i := 0; i < 40; i++ {
+					rt.Warmup()
+					if i%8 == 0 {
+						rt.Freeze()
+					}
+				}
+			}()
+		}
+		for g := 0; g < 2; g++ {
+			wg.Add(1)
+			go func(g int) {
+				defer wg.Done()
+				<-start
+				for i := 0; i < 60; i++ {
+					j := strconv.Itoa((i + g) % 24)
+					checks := []struct {
+						m, p string
+						want int
+					}{{"GET", "/s" + j, 200}, {"GET", "/v" + j, 200}, {"GET", "/nope" + j, 404}, {"GET", "/p" + j, 405}, {"POST", "/s" + j, 405}, {"GET", "/r0/7", 200}}
+					for _, c := range checks {
+						if got := do(c.m, c.p); got != c.want {
+							fail("trial %d: %s %s answered %d, want %d", t, c.m, c.p, got, c.want)
+							return
+						}
+					}
+				}
+			}(g)
+		}
+		close(start)
+		wg.Wait()
+	}
+	return stressLine(id, trials, bad, stressRecipe{"rewarm", seed, trials}, st, "rewarm_batches")
+}
+
+// stressChild is the body of the child process: one kind, lines flushed one by one.
+func stressChild(kind string, seed uint64, n int, w *bufio.Writer) {
+	st := hx.NewStats()
+	out := func(l string) { fmt.Fprintln(w, l); w.Flush() }
+	switch kind {
+	case "late":
+		r := hx.NewRand(seed)
+		for i := 0; i < n; i++ {
+			out(runStress(fmt.Sprintf("c12s-%d-%d", seed, i), r, st))
+		}
+	case "inflight":
+		for b := 0; b*100 < n; b++ {
+			out(runInflight(fmt.Sprintf("c12i-%d-%d", seed, b), seed*1000+uint64(b), min(100, n-b*100), st))
+		}
+	case "rewarm":
+		for b := 0; b*10 < n; b++ {
+			out(runRewarm(fmt.Sprintf("c12w-%d-%d", seed, b), seed*1000+uint64(b), min(10, n-b*10), st))
+		}
+	}
+	st.Emit(w)
+	w.Flush()
+}
+
+// spawnStress runs one unscheduled kind in a child process (a Go runtime fatal error — concurrent map access —
+// or a -race exit would otherwise take the whole harness output with it) and relays its lines. A child that
+// dies or hangs is itself the observation: one BAD line carrying the tail of its stderr, recipe in the comment.
+func spawnStress(kind string, seed uint64, n int, w *bufio.Writer, st *hx.Stats) {
+	if n <= 0 {
+		return
+	}
+	cmd := exec.Command(os.Args[0], "stress", "-seed", strconv.FormatUint(seed, 10), "-n", strconv.Itoa(n), "-tier", kind)
+	var stdout, stderr strings.Builder
+	cmd.Stdout, cmd.Stderr = &stdout, &stderr
+	done := make(chan error, 1)
+	if err := cmd.Start(); err != nil {
+		fmt.Fprintln(w, stressLine(fmt.Sprintf("c12x-%d-%s", seed, kind), n, []string{"cannot start the stress child: " + err.Error()}, stressRecipe{kind, seed, n}, st, "stress_child_failed"))
+		return
+	}
+	go func() { done <- cmd.Wait() }()
+	var werr error
+	hung := false
+	select {
+	case werr = <-done:
+	case <-time.After(90 * time.Second):
+		hung = true
+		_ = cmd.Process.Kill()
+		werr = <-done
+	}
+	for _, l := range strings.Split(stdout.String(), "\n") {
+		if strings.HasPrefix(l, "#stats ") {
+			var m struct {
+				Counters map[string]int `json:"counters"`
+			}
+			if json.Unmarshal([]byte(l[7:]), &m) == nil {
+				for k, v := range m.Counters {
+					st.Counters[k] += v
+				}
+			}
+			continue
+		}
+		if l != "" {
+			fmt.Fprintln(w, l)
+			f := strings.Fields(l)
+			st.Case(f[0], false)
+		}
+	}
+	if werr != nil || hung {
+		msg := "stress child (" + kind + ") "
+		if hung {
+			msg += "hung for 90 s and was killed"
+		} else {
+			msg += "died: " + werr.Error()
+		}
+		tail := stderr.String()
+		if i := strings.Index(tail, "fatal error:"); i >= 0 {
+			tail = tail[i:]
+		} else if i := strings.Index(tail, "WARNING: DATA RACE"); i >= 0 {
+			tail = tail[i:]
+		}
+		lines := strings.Split(tail, "\n")
+		if len(lines) > 14 {
+			lines = lines[:14]
+		}
+		msg += " | " + strings.Join(lines, " | ")
+		fmt.Fprintln(w, stressLine(fmt.Sprintf("c12x-%d-%s", seed, kind), n, []string{msg}, stressRecipe{kind, seed, n}, st, "stress_child_failed"))
+	}
+}
+
 // ---------------------------------------------------------------- main
 
 const urlOn = true
@@ -1212,19 +1525,61 @@ func main() {
 		for i := 0; i < budget && urlOn; i++ {
 			fmt.Fprintln(w, runURL(fmt.Sprintf("c12u-%d-%d", a.Seed, i), genURLCase(r), st))
 		}
-		nStress := budget / 10
-		if a.Tier == "thorough" {
-			nStress = budget / 2
-		}
 		fmt.Fprintln(w, runApp("c12a-0", false, st))
 		fmt.Fprintln(w, runApp("c12a-1", true, st))
-		for i := 0; i < nStress && !sawDeadlock; i++ {
-			fmt.Fprintln(w, runStress(fmt.Sprintf("c12s-%d-%d", a.Seed, i), r, st))
+		// unscheduled kinds, each in its own child process
+		nLate, nInflight, nRewarm := budget/10, 1500, 40
+		if a.Tier == "thorough" && budget >= 6000 { // not for the 3x-budget search runs of an alarming quick check
+			nLate, nInflight, nRewarm = budget/2, 6000, 200
+		}
+		if !sawDeadlock {
+			w.Flush()
+			spawnStress("rewarm", a.Seed, nRewarm, w, st)
+			spawnStress("inflight", a.Seed, nInflight, w, st)
+			spawnStress("late", a.Seed, nLate, w, st)
 		}
 		st.Emit(w)
+	case "stress":
+		stressChild(a.Tier, a.Seed, a.N, w)
 	case "replay":
 		for _, line := range hx.StdinLines() {
 			f := strings.Fields(line)
+			if len(f) > 1 && f[1] == "S" && !strings.HasPrefix(f[0], "c12a") {
+				var rc struct{ Stress stressRecipe }
+				if _, err := hx.CaseFromComment(line, &rc); err == nil && rc.Stress.Kind != "" {
+					// re-run the recipe (in a child again); report the line with this id, or the child's failure
+					var sb strings.Builder
+					bw := bufio.NewWriter(&sb)
+					st := hx.NewStats()
+					seed := rc.Stress.Seed
+					if strings.HasPrefix(f[0], "c12x") {
+						spawnStress(rc.Stress.Kind, seed, rc.Stress.N, bw, st)
+					} else {
+						switch rc.Stress.Kind {
+						case "inflight":
+							fmt.Fprintln(bw, runInflight(f[0], seed, rc.Stress.N, nil))
+						case "rewarm":
+							var one strings.Builder
+							ob := bufio.NewWriter(&one)
+							spawnStress("rewarm", seed/1000, 10*int(seed%1000+1), ob, st)
+							ob.Flush()
+							fmt.Fprint(bw, one.String())
+						}
+					}
+					bw.Flush()
+					printed := false
+					for _, l := range strings.Split(sb.String(), "\n") {
+						if strings.HasPrefix(l, f[0]+" ") || strings.HasPrefix(l, "c12x") {
+							fmt.Fprintln(w, l)
+							printed = true
+						}
+					}
+					if !printed {
+						fmt.Fprintln(w, stressLine(f[0], rc.Stress.N, nil, rc.Stress, nil, ""))
+					}
+					continue
+				}
+			}
 			if len(f) > 1 && f[1] == "S" && strings.HasPrefix(f[0], "c12a") {
 				fmt.Fprintln(w, runApp(f[0], strings.HasSuffix(f[0], "1"), nil))
 				continue
